@@ -112,7 +112,7 @@ def main(argv=None):
                      f" (x{len(vs)}; replay reproduced twice: {reproduced})")
 
     cov = dict(rep.coverage)
-    cov["violation_classes"] = summary[:60]
+    cov["violation_classes"] = summary[:400]
     ev = {"property_id": pid, "tier": args.tier, "seed": seed, "level": rep.level,
           "coverage": common.jsonable(cov), "assumptions": rep.assumptions,
           "wall_s": round(wall, 2), "violations": n_new,
